@@ -509,3 +509,80 @@ def parallel_stacks(check: Check, repo: Repo, classes: ClassIndex, rule: str = "
     gd = methods.get("get_default_value")
     ok = gd is not None and any(isinstance(r, ast.Return) and "self._default_value_stack[-1]" in unparse(r) for r in walk_body(gd))
     check.ob(rule, gd or ci.node, "get_default_value reads the top of the default-value stack", ok, "")
+
+
+# -- per-operation state of a rule is reset per operation ------------------------------------
+
+PER_OPERATION_HANDLERS = ("enter_variable_definition", "leave_variable_definition", "leave_operation_definition")
+
+
+def operation_scoped(check: Check, repo: Repo, mods: list[Module], rule: str = "OPERATION-SCOPED") -> None:
+    check.rule(
+        rule,
+        "a container attribute of a validation rule that is filled by a per-operation handler "
+        "(enter/leave_variable_definition, leave_operation_definition: its content is keyed by the "
+        "variables of the operation in hand) is emptied or re-created in enter_operation_definition of the "
+        "same class; otherwise what one operation stored is read back under the same variable name while a "
+        "later operation of the document is validated",
+    )
+    n = 0
+    for mod in mods:
+        for cls in mod.classes():
+            methods = {s.name: s for s in cls.body if isinstance(s, (ast.FunctionDef, ast.AsyncFunctionDef))}
+            init = methods.get("__init__")
+            if init is None:
+                continue
+            containers = set()
+            for s in walk_body(init):
+                tgt = None
+                if isinstance(s, ast.Assign) and len(s.targets) == 1:
+                    tgt, val = s.targets[0], s.value
+                elif isinstance(s, ast.AnnAssign) and s.value is not None:
+                    tgt, val = s.target, s.value
+                if tgt is not None and isinstance(tgt, ast.Attribute) and unparse(tgt.value) == "self" and is_fresh_expr(val) \
+                        and isinstance(val, (ast.Dict, ast.List, ast.Set, ast.Call)):
+                    containers.add(tgt.attr)
+            if not containers:
+                continue
+            filled: dict[str, ast.AST] = {}
+            for hname in PER_OPERATION_HANDLERS:
+                h = methods.get(hname)
+                if h is None:
+                    continue
+                # local aliases `m = self.attr`
+                alias = {
+                    a.targets[0].id: a.value.attr
+                    for a in walk_body(h)
+                    if isinstance(a, ast.Assign) and len(a.targets) == 1 and isinstance(a.targets[0], ast.Name)
+                    and isinstance(a.value, ast.Attribute) and unparse(a.value.value) == "self"
+                }
+                for w in write_sites(h):
+                    if w.kind not in ("item-store", "mutator"):
+                        continue
+                    t = w.target
+                    attr = None
+                    if isinstance(t, ast.Attribute) and unparse(t.value) == "self":
+                        attr = t.attr
+                    elif isinstance(t, ast.Name) and t.id in alias:
+                        attr = alias[t.id]
+                    if attr in containers and w.detail not in ("clear",):
+                        filled.setdefault(attr, w.node)
+            if not filled:
+                continue
+            enter = methods.get("enter_operation_definition")
+            reset: set[str] = set()
+            if enter is not None:
+                for w in write_sites(enter):
+                    t = w.target
+                    if w.kind == "mutator" and w.detail == "clear" and isinstance(t, ast.Attribute) and unparse(t.value) == "self":
+                        reset.add(t.attr)
+                    if w.kind == "attr-store" and unparse(t) == "self" and isinstance(w.node, (ast.Assign, ast.AnnAssign)) \
+                            and is_fresh_expr(w.node.value):
+                        reset.add(w.detail)
+            for attr, site in sorted(filled.items()):
+                n += 1
+                ok = attr in reset
+                check.ob(rule, site, f"{cls.name}.{attr} (filled in a per-operation handler)", ok,
+                         "reset in enter_operation_definition" if ok else
+                         f"`self.{attr}` is filled per operation but never emptied in enter_operation_definition: entries of an earlier operation stay visible")
+    check.note(operation_scoped_attrs=n)
